@@ -45,6 +45,19 @@ def check(repo, col, tier):
     _types(repo, col)
     from . import c01_solver, c11
     from . import c20 as _c20
+    # the table handed on by _step_synapse is the one it received
+    ss_ = repo.method("Network", "_step_synapse")
+    exs_ = idx.expander(repo, ss_)
+    for c_ in exs_.calls:
+        if isinstance(c_.func, ast.Attribute) and c_.func.attr in ("_step_synapse_state", "_synapse_currents"):
+            t_ = exs_.term(c_)
+            cal_ = repo.method("Network", c_.func.attr)
+            pos_ = [p_ for p_ in cal_.params if p_ != "self"].index("edges")
+            a_ = t_.kw.get("edges") or (t_.args[pos_ + 1] if len(t_.args) > pos_ + 1 else None)
+            col.check(a_ is not None and a_.op == "param" and a_.name == "edges", "R-C09-space", ss_,
+                      f"_step_synapse hands its edge table to {c_.func.attr} as received", "edges",
+                      f"{c_.func.attr} receives `{a_.short(80) if a_ is not None else None}`: rows re-ordered or filtered here no longer line up with the per-type "
+                      f"parameter and state arrays, which are in .edges order", node=c_)
     col.rule("R-C09-edgerows", "edge table construction: one row per pair, pre / post compartment columns from their own side", 6)
     _c20.edge_rows(repo, col, "R-C09-edgerows")
     from . import cable as _cable
@@ -182,6 +195,29 @@ def _roles(repo, col, cl, name, R="R-C09-roles", RS="R-C09-space"):
                            x.kw.get("sort") is not None and x.kw["sort"].op == "const" and x.kw["sort"].name is False for x in gbs.values())
     col.check(ok, RS, fi, f"{name}: edges grouped by type in table order", "groupby('type', sort=False)",
               "the grouping by synapse type may reorder types relative to the per-type parameter arrays", node=fi.node)
+    # ... and the rows WITHIN a type stay in table order: the per-type parameter / state arrays (to_jax) are in .edges order, so the
+    # table that is grouped is the table that was handed in -- not a sorted / shuffled / re-indexed version of it (sort_values is
+    # not even stable by default)
+    REORDER = ("sort_values", "sort_index", "sample", "reindex", "take", "nlargest", "nsmallest", "sort")
+
+    def order_kept(t):
+        while True:
+            if t.op == "mcall" and t.name in ("copy", "reset_index", "astype", "infer_objects") and t.args:
+                t = t.args[0]
+            elif t.op == "sub" and t.args[1].op in ("list", "const"):
+                t = t.args[0]            # a column selection
+            else:
+                break
+        return t.op == "param" or (t.op == "attr" and t.name == "edges"), t
+    for x in gbs.values():
+        kept, src = order_kept(x.args[0])
+        reord = T.find(x.args[0], lambda y: y.op == "mcall" and y.name in REORDER) is not None or \
+            T.find(x.args[0], lambda y: y.op == "sub" and y.args[1].op == "slice" and len(y.args[1].args) == 3 and y.args[1].args[2].op != "const") is not None
+        col.add(RS, fi, f"{name}: rows within a synapse type stay in the order of the edge table", "DISCHARGED" if kept else ("VIOLATED" if reord else "UNDECIDED"),
+                "the table handed in is grouped as it is" if kept else
+                f"the grouped table is `{x.args[0].short(80)}`: pre / post index lists are built from re-ordered rows while the per-type parameter and state "
+                f"arrays stay in .edges order (and sort_values is not stable: rows of one type are permuted) -- a synapse runs with another synapse's parameters",
+                node=x.node or fi.node)
     asserts = [n for n in ast.walk(fi.node) if isinstance(n, ast.Assert)]
     ok = False
     for a in asserts:
@@ -222,24 +258,30 @@ def _roles(repo, col, cl, name, R="R-C09-roles", RS="R-C09-space"):
                   "updated states are stored under other keys", node=st[0].node if st else fi.node)
         return
     # ---- _synapse_currents
-    vm = next((c for c in ex.calls if isinstance(c.func, ast.Call) and unparse(c.func.func) in ("vmap", "jax.vmap")
-               and "compute_current" in unparse(c.func)), None)
+    # the application of the vmapped compute_current, wherever the vmapped function is bound in between
+    vm, vm_t = None, None
+    for c in ex.calls:
+        t_ = ex.term(c)
+        if t_.op == "callv" and t_.args and t_.args[0].op in ("call", "mcall") and t_.args[0].name == "vmap" and \
+                T.find(t_.args[0], lambda x: x.op == "attr" and x.name == "compute_current") is not None:
+            vm, vm_t = c, t_
+            break
     if vm is None:
         raise AnalysisError("_synapse_currents no longer vmaps compute_current")
     sig = repo.method("IonotropicSynapse", "compute_current").params  # self, states, pre_voltage, post_voltage, params
     pos = {p: i - 1 for i, p in enumerate(sig)}
+    vargs = list(vm_t.args[1:])
     for pname, want in (("pre_voltage", "pre"), ("post_voltage", "post")):
-        a = N(ex.term(vm.args[pos[pname]]))
+        a = N(vargs[pos[pname]])
         roles = _gather_role(a)
         col.check(roles == {("v", want)}, R, fi, f"compute_current: {pname} is the voltage at the {want}synaptic compartment",
                   f"stack([voltages[{want}_inds], voltages[{want}_inds] + diff])", f"argument `{pname}` is {a.short(100)} (roles {roles})", node=vm)
-    in_axes = next((k.value for k in vm.func.keywords if k.arg == "in_axes"), None)
-    axes_t = ex.term(in_axes) if in_axes is not None else None
+    axes_t = vm_t.args[0].kw.get("in_axes")
     axes_ok = axes_t is not None and axes_t.op == "tuple" and [a_.name if a_.op == "const" else "?" for a_ in axes_t.args] == \
         [0 if p_ in ("pre_voltage", "post_voltage") else None for p_ in sig[1:]]
     col.check(axes_ok, R, fi,
               "vmap maps over the two stacked voltages only", "in_axes=(None, 0, 0, None)",
-              f"in_axes is {unparse(in_axes) if in_axes is not None else None}", node=vm)
+              f"in_axes is {axes_t.short(40) if axes_t is not None else None}", node=vm)
     conv = next((c for c in ex.calls if isinstance(c.func, ast.Name) and c.func.id == "convert_point_process_to_distributed"), None)
     if conv is None:
         raise AnalysisError("_synapse_currents no longer converts the point-process current")
